@@ -6,6 +6,7 @@ import (
 	"bufio"
 	"bytes"
 	"fmt"
+	"io"
 	"net"
 	"net/http"
 	"strings"
@@ -20,17 +21,23 @@ import (
 // C09 (websocket path): the relay in ws_handler.go under the controlled scheduler.
 
 type hijackRW struct {
-	h    http.Header
-	conn net.Conn
-	code int
-	body bytes.Buffer
+	h     http.Header
+	conn  net.Conn
+	code  int
+	body  bytes.Buffer
+	early []byte // read from the connection by the http server before the handler took over
 }
 
 func (w *hijackRW) Header() http.Header         { return w.h }
 func (w *hijackRW) Write(b []byte) (int, error) { return w.body.Write(b) }
 func (w *hijackRW) WriteHeader(c int)           { w.code = c }
 func (w *hijackRW) Hijack() (net.Conn, *bufio.ReadWriter, error) {
-	return w.conn, bufio.NewReadWriter(bufio.NewReader(w.conn), bufio.NewWriter(w.conn)), nil
+	// as net/http does: what the server has read beyond the request is in the reader's buffer
+	br := bufio.NewReader(io.MultiReader(bytes.NewReader(w.early), w.conn))
+	if len(w.early) > 0 {
+		br.Peek(len(w.early))
+	}
+	return w.conn, bufio.NewReadWriter(br, bufio.NewWriter(w.conn)), nil
 }
 
 type wsScn struct {
@@ -41,6 +48,7 @@ type wsScn struct {
 	upEnd     string // close | wait
 	hsStatus  string
 	pause     int64 // virtual time the client stays silent before every segment but the first
+	early     int   // bytes of the client's payload that arrived together with the upgrade request: the http server has read them already, they sit in the buffer that Hijack hands over
 }
 
 func (s wsScn) String() string {
@@ -48,12 +56,15 @@ func (s wsScn) String() string {
 	if s.pause > 0 {
 		p = fmt.Sprintf(" client-pauses=%v", time.Duration(s.pause))
 	}
+	if s.early > 0 {
+		p += fmt.Sprintf(" sent-with-the-request=%d", s.early)
+	}
 	return fmt.Sprintf("ws client-segments=%d client-then=%s handshake=%q reply-bytes-with-handshake=%d reply-segments=%d upstream-then=%s%s", len(s.segs), s.clientEnd, s.hsStatus, s.hsExtra, len(s.reply), s.upEnd, p)
 }
 
 func TestVerifC09Websocket(t *testing.T) {
 	L := ev.Begin("C09", "c09-websocket", "model_checking",
-		"controlled scheduler over the real websocket relay (newWSHandler: go statements and errc rewritten, dial function and hijacked connection are in-memory connections): client payload segmentation x client then {open, half-close, close} x upstream handshake {101, 101 with the first reply bytes in the same segment, 400} x reply segments x upstream then {close, wait} x a client that pauses 2.5s / 61s of virtual time between its segments (connection deadlines are honoured on the virtual clock); every interleaving up to the preemption bound. oracle: the upstream receives the upgrade request followed by exactly the client's bytes (prefix; complete when the client finished first or the tunnel stays open), the client receives the handshake response followed by the reply bytes; a failed handshake is relayed and ends the connection")
+		"controlled scheduler over the real websocket relay (newWSHandler: go statements and errc rewritten, dial function and hijacked connection are in-memory connections): client payload segmentation x client then {open, half-close, close} x upstream handshake {101, 101 with the first reply bytes in the same segment, 400} x reply segments x upstream then {close, wait} x a client that pauses 2.5s / 61s of virtual time between its segments (connection deadlines are honoured on the virtual clock) x a client whose first bytes (or whole stream) arrive in one segment with the upgrade request and sit in the buffer Hijack hands over; every interleaving up to the preemption bound. oracle: the upstream receives the upgrade request followed by exactly the client's bytes (prefix; complete when the client finished first or the tunnel stays open), the client receives the handshake response followed by the reply bytes; a failed handshake is relayed and ends the connection")
 	payload := []byte("ws-frame-bytes")
 	reply := []byte("SERVER-FRAMES")
 	var scs []wsScn
@@ -62,18 +73,24 @@ func TestVerifC09Websocket(t *testing.T) {
 			for _, hx := range []int{0, 4} {
 				for _, rp := range [][][]byte{{reply}, {reply[:6], reply[6:]}} {
 					for _, ue := range []string{"close", "wait"} {
-						scs = append(scs, wsScn{sp, ce, hx, rp, ue, "101", 0})
+						scs = append(scs, wsScn{sp, ce, hx, rp, ue, "101", 0, 0})
 					}
 				}
 			}
 		}
 	}
-	scs = append(scs, wsScn{[][]byte{payload}, "open", 0, nil, "close", "400", 0})
+	scs = append(scs, wsScn{[][]byte{payload}, "open", 0, nil, "close", "400", 0, 0})
 	// a client that goes on talking after a pause longer than any handshake time limit (connection
 	// deadlines run on the virtual clock)
 	for _, ce := range []string{"open", "half"} {
-		scs = append(scs, wsScn{[][]byte{payload[:3], payload[3:]}, ce, 0, [][]byte{reply}, "wait", "101", int64(2500 * time.Millisecond)})
-		scs = append(scs, wsScn{[][]byte{payload[:3], payload[3:7], payload[7:]}, ce, 4, [][]byte{reply[:6], reply[6:]}, "wait", "101", int64(61 * time.Second)})
+		scs = append(scs, wsScn{[][]byte{payload[:3], payload[3:]}, ce, 0, [][]byte{reply}, "wait", "101", int64(2500 * time.Millisecond), 0})
+		scs = append(scs, wsScn{[][]byte{payload[:3], payload[3:7], payload[7:]}, ce, 4, [][]byte{reply[:6], reply[6:]}, "wait", "101", int64(61 * time.Second), 0})
+	}
+	// a client that does not wait for the 101 before it talks: the first bytes of its stream (or all of
+	// it) reach the proxy in one segment with the upgrade request
+	for _, ce := range []string{"open", "half"} {
+		scs = append(scs, wsScn{[][]byte{payload[5:]}, ce, 0, [][]byte{reply}, "wait", "101", 0, 5})
+		scs = append(scs, wsScn{nil, ce, 4, [][]byte{reply}, "wait", "101", 0, len(payload)})
 	}
 	bound := 1
 	if ev.Thorough() {
@@ -85,7 +102,7 @@ func TestVerifC09Websocket(t *testing.T) {
 		if sn > 1 && i%sn != si {
 			continue
 		}
-		if !ev.Thorough() && i%4 != 0 && s.hsStatus == "101" && s.pause == 0 {
+		if !ev.Thorough() && i%4 != 0 && s.hsStatus == "101" && s.pause == 0 && s.early == 0 {
 			continue
 		}
 		s := s
@@ -98,7 +115,7 @@ func TestVerifC09Websocket(t *testing.T) {
 			var reqBytes bytes.Buffer
 			req.Write(&reqBytes)
 			req, _ = http.ReadRequest(bufio.NewReader(strings.NewReader("GET /ws HTTP/1.1\r\nHost: foo.com\r\nUpgrade: websocket\r\nConnection: Upgrade\r\n\r\n")))
-			rw := &hijackRW{h: http.Header{}, conn: in}
+			rw := &hijackRW{h: http.Header{}, conn: in, early: payload[:s.early]}
 			var clientGot, upGot []byte
 			clientSentAll, upSentAll := false, false
 			hs := []byte("HTTP/1.1 " + s.hsStatus + " X\r\nUpgrade: websocket\r\n\r\n")
@@ -174,7 +191,7 @@ func TestVerifC09Websocket(t *testing.T) {
 			if len(env.Accepted) > 0 {
 				toUp = env.Accepted[0].PeerWritten()
 			}
-			wantUp := append(append([]byte{}, reqBytes.Bytes()...), bytes.Join(s.segs, nil)...)
+			wantUp := append(append(append([]byte{}, reqBytes.Bytes()...), payload[:s.early]...), bytes.Join(s.segs, nil)...)
 			wantClient := append(append([]byte{}, hs...), fullReply...)
 			d := map[string]interface{}{"scenario": s.String(), "forwarded_to_upstream": len(toUp), "want_upstream": len(wantUp), "forwarded_to_client": len(toClient), "want_client": len(wantClient), "close_order": append([]string{}, vnet.Log...)}
 			if s.hsStatus != "101" {
